@@ -8,13 +8,107 @@ import (
 	"encoding/json"
 	"fmt"
 	"os"
+	"time"
 
 	"github.com/DistCompiler/pgo/distsys"
+	"github.com/DistCompiler/pgo/distsys/tla"
 )
+
+type attempt struct {
+	Sig    [][]interface{} `json:"sig"`    // [[id, ceiling], ...] consulted in order by this attempt
+	Action string          `json:"action"` // "abort" | "goto:<label>" | "done"
+}
 
 type kase struct {
 	ID  int             `json:"id"`
 	Ops [][]interface{} `json:"ops"`
+	// mode "run": the real MPCalContext.Run loop drives the real counter through a recording wrapper
+	Mode   string    `json:"mode"`
+	Start  string    `json:"start"`
+	Labels []string  `json:"labels"`
+	Script []attempt `json:"script"`
+}
+
+// recording wrapper around the real round-robin counter
+type recFC struct {
+	inner distsys.FairnessCounter
+	log   *[][]interface{}
+}
+
+func (r *recFC) BeginCriticalSection(pc string) {
+	*r.log = append(*r.log, []interface{}{"B", pc})
+	r.inner.BeginCriticalSection(pc)
+}
+
+func (r *recFC) NextFairnessCounter(id string, ceiling uint) uint {
+	v := r.inner.NextFairnessCounter(id, ceiling)
+	*r.log = append(*r.log, []interface{}{"N", id, ceiling, v})
+	return v
+}
+
+type runResult struct {
+	ID  int             `json:"id"`
+	Log [][]interface{} `json:"log"` // ["B",pc] | ["A",label] (body entered) | ["N",id,ceiling,value]
+	Err string          `json:"err"`
+}
+
+func runLoopCase(k kase) (res runResult) {
+	res.ID = k.ID
+	log := [][]interface{}{}
+	pos := 0
+	body := func(label string) func(iface distsys.ArchetypeInterface) error {
+		return func(iface distsys.ArchetypeInterface) error {
+			log = append(log, []interface{}{"A", label})
+			if pos >= len(k.Script) {
+				return distsys.ErrDone
+			}
+			at := k.Script[pos]
+			pos++
+			for _, c := range at.Sig {
+				iface.NextFairnessCounter(c[0].(string), uint(c[1].(float64)))
+			}
+			switch {
+			case at.Action == "abort":
+				return distsys.ErrCriticalSectionAborted
+			case at.Action == "done":
+				return distsys.ErrDone
+			case len(at.Action) > 5 && at.Action[:5] == "goto:":
+				return iface.Goto(at.Action[5:])
+			}
+			return fmt.Errorf("bad action %q", at.Action)
+		}
+	}
+	var sections []distsys.MPCalCriticalSection
+	for _, l := range k.Labels {
+		sections = append(sections, distsys.MPCalCriticalSection{Name: l, Body: body(l)})
+	}
+	arch := distsys.MPCalArchetype{
+		Name: "A", Label: k.Start,
+		JumpTable: distsys.MakeMPCalJumpTable(sections...),
+		ProcTable: distsys.MakeMPCalProcTable(),
+		PreAmble:  func(iface distsys.ArchetypeInterface) {},
+	}
+	done := make(chan error, 1)
+	go func() {
+		defer func() {
+			if r := recover(); r != nil {
+				done <- fmt.Errorf("panic: %v", r)
+			}
+		}()
+		ctx := distsys.NewMPCalContext(tla.MakeNumber(1), arch,
+			distsys.SetFairnessCounter(&recFC{inner: distsys.MakeRoundRobinFairnessCounter(), log: &log}))
+		done <- ctx.Run()
+	}()
+	select {
+	case err := <-done:
+		if err != nil {
+			res.Err = err.Error()
+		}
+	case <-time.After(20 * time.Second):
+		res.Err = "hang"
+	}
+	res.Log = log
+	return
 }
 
 type result struct {
@@ -61,6 +155,10 @@ func main() {
 			fmt.Fprintln(os.Stderr, "bad case:", err)
 			os.Exit(2)
 		}
-		enc.Encode(runCase(k))
+		if k.Mode == "run" {
+			enc.Encode(runLoopCase(k))
+		} else {
+			enc.Encode(runCase(k))
+		}
 	}
 }
